@@ -51,8 +51,119 @@ type stateEv struct {
 	Failed  bool         `json:"failed"` // the first reconciliation of the step returned an error
 	Core    bool         `json:"core"` // the cluster is within the vocabulary of spec/Controller.tla
 	Cluster any          `json:"cluster,omitempty"`
+	Routing *routing     `json:"routing,omitempty"` // frontends and backends of the incremental controller, for Routing!Route
 	Model   *model       `json:"model,omitempty"`  // routing tables read from the incremental controller's files
 	FModel  *model       `json:"fmodel,omitempty"` // same for the first fresh controller
+}
+
+type backR struct {
+	S   string   `json:"s"`
+	Eps []string `json:"eps"`
+	Dr  []string `json:"dr"`
+}
+
+type crtLine struct {
+	C       string     `json:"c"`   // secret name ("default" for the default certificate)
+	Cur     bool       `json:"cur"` // the file holds the current content of that secret
+	Dflt    bool       `json:"dflt"`
+	Filters [][]string `json:"filters"`
+}
+
+type routing struct {
+	CrtList    []crtLine       `json:"crtlist"`
+	HTTP       *cfgnf.Frontend `json:"http"`
+	HTTPS      *cfgnf.Frontend `json:"https"`
+	Backs      []backR         `json:"backs"`
+	DefaultSvc string          `json:"defaultsvc"`
+	Drain      bool            `json:"drain"`
+}
+
+var withRouting bool
+
+func lastOctet(a string) string {
+	ip := a[:strings.LastIndex(a, ":")]
+	return ip[strings.LastIndex(ip, ".")+1:]
+}
+
+func extractRouting(w *world.World, h *hist.History, drain bool) (*routing, error) {
+	raw, err := cfgnf.Load(w.Opt.CfgDir(), w.Opt.Dir)
+	if err != nil {
+		return nil, err
+	}
+	r := &routing{Backs: []backR{}, DefaultSvc: h.Opt.DefaultSvc, Drain: drain, CrtList: []crtLine{}}
+	for path, ls := range raw.Files {
+		if filepath.Base(path) != "_front_bind_crt.list" {
+			continue
+		}
+		for i, l := range ls {
+			f := strings.Fields(l)
+			if len(f) == 0 {
+				continue
+			}
+			cl := crtLine{Filters: [][]string{}}
+			base := strings.TrimSuffix(filepath.Base(f[0]), ".pem")
+			cl.C = strings.TrimPrefix(base, "d_")
+			if i == 0 || (len(f) > 1 && f[1] == "!*") {
+				cl.Dflt, cl.C, cl.Cur = true, "default", true
+			} else {
+				sec := &api.Secret{}
+				if err := w.Cli.Get(w.P.Ctx, client.ObjectKey{Namespace: "d", Name: cl.C}, sec); err == nil {
+					if fb, err := os.ReadFile(f[0]); err == nil {
+						cl.Cur = firstPEMBlock(fb) != "" && firstPEMBlock(fb) == firstPEMBlock(sec.Data["tls.crt"])
+					}
+				}
+				for _, flt := range f[1:] {
+					if strings.HasPrefix(flt, "[") {
+						continue
+					}
+					cl.Filters = append(cl.Filters, cfgnf.Chars(flt))
+				}
+			}
+			r.CrtList = append(r.CrtList, cl)
+		}
+	}
+	r.HTTP = raw.FrontendNF("_front_http")
+	r.HTTPS = raw.FrontendNF("_front_https")
+	if r.HTTPS == nil {
+		r.HTTPS = raw.FrontendNF("_front_https__local")
+	}
+	if r.HTTP == nil || r.HTTPS == nil {
+		return nil, fmt.Errorf("frontends not found")
+	}
+	defName := ""
+	if h.Opt.DefaultSvc != "" {
+		defName = strings.Replace(h.Opt.DefaultSvc, "/", "_", 1) + "_8080"
+	}
+	rename := func(name string) string {
+		if sm := reSvcBack.FindStringSubmatch(name); sm != nil {
+			return sm[1]
+		}
+		return name
+	}
+	for _, f := range []*cfgnf.Frontend{r.HTTP, r.HTTPS} {
+		for i := range f.Steps {
+			st := &f.Steps[i]
+			if st.Kind == "default" && st.Target == defName && defName != "" {
+				st.Target = "_default"
+			} else {
+				st.Target = rename(st.Target)
+			}
+			for j := range st.Entries {
+				st.Entries[j].V = rename(st.Entries[j].V)
+			}
+		}
+	}
+	for _, b := range raw.Backs() {
+		e := backR{S: rename(b.S), Eps: []string{}, Dr: []string{}}
+		for _, a := range b.Eps {
+			e.Eps = append(e.Eps, lastOctet(a))
+		}
+		for _, a := range b.Dr {
+			e.Dr = append(e.Dr, lastOctet(a))
+		}
+		r.Backs = append(r.Backs, e)
+	}
+	return r, nil
 }
 
 type crtEnt struct {
@@ -432,6 +543,16 @@ func runHistory(base string, h *hist.History, certs *hist.Certs, nfresh int, fac
 			if ev.Model, err = extractModel(w); err != nil {
 				return nil, err
 			}
+			if withRouting {
+				drain := false
+				cm := &api.ConfigMap{}
+				if err := w.Cli.Get(w.P.Ctx, client.ObjectKey{Namespace: "ingress", Name: "cfg"}, cm); err == nil {
+					drain = cm.Data["drain-support"] == "true"
+				}
+				if ev.Routing, err = extractRouting(w, h, drain); err != nil {
+					return nil, err
+				}
+			}
 		}
 		var first *cfgnf.NF
 		for k := 0; k < nfresh; k++ {
@@ -496,6 +617,7 @@ func main() {
 	nfresh := flag.Int("fresh", 1, "fresh controllers per quiescent point (more than one: permuted list and event order)")
 	facts := flag.Bool("facts", false, "record loader facts (C07)")
 	seed := flag.Int64("seed", 1, "seed of the permutations")
+	flag.BoolVar(&withRouting, "routing", false, "record the frontends and backends for request-level judgement (C03)")
 	flag.StringVar(&keepDir, "keep", "", "keep the files of the last quiescent point of every history under this directory")
 	flag.Parse()
 	world.Chdir()
